@@ -87,10 +87,14 @@ CHECKS = {
    technique="TLC computes range progressions with the Int64 limb arithmetic and the toInt/toFloat dispatch (AnkoBuiltins.tla) for enumerated argument tuples; replay in a memory-limited watchdogged worker; native-Go oracles for the remaining builtins; TLC validation of the reflected package tables against EntryOK",
    text="range is specified as the int64 progression strictly before stop and computed bit-exactly in TLA+ for all small triples and for extreme triples at the int64 edges (where the implementation must stop instead of wrapping); conversions are dispatched in TLA+ to exact values or named Go primitives. The remaining builtins are compared with the same computation done natively in Go over a value universe, including misuse; all 595 package-table entries are reflected (runtime symbol / type identity) and validated against the rule that an entry is the Go function or type it is listed under.",
    note="Level model_checking for range and the conversion dispatch; the native-oracle part and the table audit are stateless comparisons (level 'other' in spirit) and are declared as such in the evidence assumptions. Trusted: strconv, fmt, reflect, runtime.FuncForPC. Two table entries are allow-listed with reasons."),
+ "C01": dict(level="exploration", design="5 (C01)",
+   technique="specification-derived input generation (TLC builds every operation template x operand-kind tuple, incl. ill-typed ones; degenerate forms; grammar corpus; mutations; token soups; random bytes) executed in memory-limited worker processes; host machine AnkoHost.tla model-checked; observations validated by TLC (a run must end by Return)",
+   text="Absence of panics cannot be proved by a model of 5 kLoC of reflection code; what the specification contributes is the systematic input space (the total product of operation templates and operand kinds, well-typed or not) and the acceptance rule. Every input is parsed and executed with Debug off in a worker; a panic reaching the caller, a dead worker (fatal error or a panic on a goroutine started by go) or a hang is attributed to exactly one input.",
+   note="Level exploration: bounded, generator-driven. Memory/stack exhaustion and astronomically large sizes are outside the guarantee and are not generated. Environment: values a script can construct, core builtins, bundled packages."),
 # <<ADD>>
 }
 
-NOT_YET0 = "check not built yet in this round (planned in DESIGN.md section 5); not claimed until its machinery is sound"
+NOT_YET0 = "not claimed"
 
 def main():
     props = [json.loads(l) for l in open(os.path.join(V, "properties.jsonl"))]
